@@ -1,7 +1,7 @@
 (* C08 — the solver is equivariant under cyclic permutation of the axes.
    Model: model/Yee.v; lemmas: proofs/Yee_perm.v (layer-free, equality of functions), proofs/Yee_perm_pml.v (with CPML layers, cell by cell) *)
 From Coq Require Import List Arith.
-From FV Require Import base.Scalar base.Cplx model.Yee model.YeeFull proofs.Yee_steps proofs.Yee_perm proofs.Yee_pml_loop proofs.Yee_perm_pml proofs.Yee_full_props proofs.Yee_full_perm.
+From FV Require Import base.Scalar base.Cplx model.Yee model.YeeFull proofs.Yee_steps proofs.Yee_perm proofs.Yee_pml_loop proofs.Yee_perm_pml proofs.Yee_full_props proofs.Yee_lossy_props proofs.Yee_full_perm.
 Import ListNotations.
 
 (* Pscene_pml relabels x -> y -> z -> x: the new x axis is the old z axis; arrays become (P f) i j k = f j k i, vector fields
@@ -34,3 +34,14 @@ Theorem C08_forward_full_tensor_perm : forall (K : Fld) (sc : scene K), pmls K s
   tstep (iterF K (PTo K ie9) (PTo K im9) (Pscene K sc) n s') = tstep (iterF K ie9 im9 sc n s).
 Proof. intros K sc Hp ie9 im9 n. exact (forward_full_perm_n K sc Hp ie9 im9 n). Qed.
 Print Assumptions C08_forward_full_tensor_perm.
+
+(* conductive fully anisotropic tiers (forward_lossy: update matrices A = M1^-1 M2, B = c M1^-1 T by the adjugate formula; the matrices of
+   the relabelled tensors are the relabelled matrices), layer-free scenes, any number of steps *)
+Theorem C08_forward_lossy_tensor_perm : forall (K : Fld) (sc : scene K), pmls K sc = [] ->
+  forall (e m : option (T9 K * T9 K)) n s s',
+  veqA K (fE s') (PV K (fE s)) -> veqA K (fH s') (PV K (fH s)) -> tstep s' = tstep s ->
+  veqA K (fE (iterL K (PTp K e) (PTp K m) (Pscene K sc) n s')) (PV K (fE (iterL K e m sc n s))) /\
+  veqA K (fH (iterL K (PTp K e) (PTp K m) (Pscene K sc) n s')) (PV K (fH (iterL K e m sc n s))) /\
+  tstep (iterL K (PTp K e) (PTp K m) (Pscene K sc) n s') = tstep (iterL K e m sc n s).
+Proof. intros K sc Hp e m n. exact (forward_lossy_perm_n K sc Hp e m n). Qed.
+Print Assumptions C08_forward_lossy_tensor_perm.
